@@ -12,7 +12,7 @@ rsync -a --exclude .target --exclude .git --exclude seeded --exclude fuzz/target
 sed -i "s#path = \"/repo\"#path = \"$S/repo\"#" $S/verif/harness/Cargo.toml
 for p in "$@"; do
   t0=$(date +%s.%N)
-  out=$(cd $S/verif && VERIF_DIR=$S/verif CARGO_TARGET_DIR=/tmp/evalseed_iso_target flock /tmp/evalseed_iso.lock bin/check $p quick 2>&1); code=$?
+  out=$(cd $S/verif && VERIF_DIR=$S/verif CARGO_TARGET_DIR=/tmp/evalseed_iso_target${EVAL_LANE:-} flock /tmp/evalseed_iso${EVAL_LANE:-}.lock bin/check $p quick 2>&1); code=$?
   t1=$(date +%s.%N)
   rule=$(echo "$out" | grep -o "rule=[A-Za-z0-9_.]* sig=[^ ]*" | head -1)
   printf "DETECT %-28s %s exit=%d %s (%.1fs, isolated copy, re-check at %s)\n" "$NAME" "$p" "$code" "$rule" "$(echo "$t1 - $t0" | bc)" "$(git -C /verif rev-parse --short HEAD)+" | tee -a "$LOG"
